@@ -35,8 +35,8 @@ def run(ctx):
                        "numpy SeedSequence treated as injective: distinct (entropy, spawn key, depth) give distinct seeds"]
     gridT = 8
     res = tlc.run("BrownianValues", timeout=900, workers=2, cfg_text=(
-        f"SPECIFICATION Spec\nCONSTANTS LMax = {16 if quick else 40} GridT = {gridT}\n"
-        f"CONSTANT LinkK = {5 if quick else 10}\n"
+        f"SPECIFICATION Spec\nCONSTANTS LMax = {16 if quick else 28} GridT = {gridT}\n"
+        "CONSTANT LinkK = 5\n"
         "INVARIANT InvLemma\nINVARIANT InvLink\nINVARIANT InvStats\nINVARIANT InvTable\nCHECK_DEADLOCK FALSE\n"))
     ctx.add_tlc(res, "BrownianValues: split lemma, link to the cleared-denominator polynomials (h, S free), covariance "
                      "definition, Levy variances; prints tables")
